@@ -22,7 +22,7 @@ def token_groups(chk):
     ints = set([0, 1, -1, 2, 15, 16, 17, -16, -17, 75, 76, 77, 100, 127, 128, 129, 255, 256, 257, 32767, 32768, 32769, 65535, 65536, 8388607, 8388608, 2**31 - 1, 2**31, 2**31 + 1,
                 2**32 - 1, 2**32, 2**39, 2**40 - 1, 2**47, 2**55, 2**56 - 1, 2**56, 2**63 - 1])
     ints |= {-x for x in ints}
-    for _ in range(200 if quick else 3000):
+    for _ in range(200 if quick else 15000):
         k = rng.randrange(1, 63); ints.add(rng.randrange(-(1 << k), 1 << k))
     groups.append(("ints", [str(i) for i in sorted(ints)]))
     one = [bytes([b]) for b in range(256)]
@@ -53,7 +53,7 @@ def token_groups(chk):
     groups.append(("subscripts", subs))
     pool = [t for _, g in groups for t in g]
     mixes = []
-    for _ in range(40 if quick else 600):
+    for _ in range(40 if quick else 4000):
         inner = " ".join(rng.choice(pool[:3000]) for _ in range(rng.randrange(1, 8)))
         if "[" not in inner and "#" not in inner:
             mixes.append("[" + inner + "]")
